@@ -2,7 +2,7 @@ SPEC = {
     "id": "C07",
     "coq_props": ["Properties/C07.v", "Corr/C07.v"],
     "module": "MS.Properties.C07",
-    "theorems": ["C07_refuted", "C07_acked_flushed", "C07_guarded", "C07_flushed_stable", "C07_steady_needed"],
+    "theorems": ["C07_full", "C07_acked_flushed", "C07_flushed_stable", "C07_steady_needed"],
     "corr_require": "Require Import MS.Corr.C07.",
     "agrees": "C07.agrees",
     "in_domain": "C07.in_domain",
@@ -13,7 +13,7 @@ SPEC = {
     "engine": "coq+implrun (forced schedules on the real code, trace validation in Coq)",
     "technique": "Coq invariant proof on an executable interleaving LTS (all schedules, any number of writers) + trace validation: "
                  "forced schedules on the real code, every recorded label/observation sequence replayed in the LTS inside Coq; "
-                 "refutation witness replayed on the real SyncWAL goroutine",
+                 "the pre-fix refutation witness kept as a forced regression schedule on the real SyncWAL goroutine",
     "rule": "see harness/props/c07.go: 2-6 writers with 0-3 commands each; 60% forced schedules against the REAL SyncWAL goroutine "
             "(writers started one at a time in random order; the loop held inside FlushCommandsToWAL after the WAL fsync via the "
             "ReplicationSender callback and released at random points), 30% shim-driven runs without the loop (queued token, inline "
@@ -35,16 +35,18 @@ SPEC = {
         "forced schedules are sequentialised at the granularity 'one writer runs until it returns or blocks on its token'; finer "
         "interleavings (two writers inside RequestFlush at once) are covered by the theorem's quantifier and exercised only by the "
         "free concurrent runs (oracle, no label trace) until the hook points of proposed_fixes/C07_hookpoints.patch are applied",
-        "'steady' schedules: no writer reads haveWALWriter=false (background writer started before the first write, no write "
-        "racing the shutdown branch); outside it C07_steady_needed shows the statement fails (two inline FlushToWAL calls interleave)",
+        "the property's quantifier ('with the background WAL writer') is the class of 'steady' schedules: no writer reads "
+        "haveWALWriter=false (background writer started before the first write, no write racing the shutdown branch); outside it "
+        "C07_steady_needed shows the statement fails (two inline FlushToWAL calls interleave) - a remark, not a C07 finding",
         "WALBypass=false; ticker flushes and checkpoints are in the LTS, the forced runs use hour-long tickers so only the token arm fires",
     ],
     "level": "proof",
-    "level_text": "Coq theorems on the interleaving LTS of WriteCSM/RequestFlush/SyncWAL/FlushToWAL, for EVERY schedule, any number of "
-                  "writers and commands, any channel capacities: C07_acked_flushed (holds of the code at HEAD: a writer acknowledged "
-                  "through its own token is WAL-synced and visible), C07_guarded (without the early return every returned writer is), "
-                  "C07_flushed_stable (stays so for every later query); C07_refuted: the full statement fails by the 2-writer schedule "
-                  "of wal.go:795-797, replayed on the real SyncWAL goroutine (KNOWN-FINDING flush-token-queued).",
+    "level_text": "Coq theorem C07_full on the interleaving LTS of WriteCSM/RequestFlush/SyncWAL/FlushToWAL (the code after the fix of "
+                  "F10): for EVERY schedule of concurrent writers with the background WAL writer (timer flushes, checkpoints, queued "
+                  "flush requests, shutdown), any number of writers and commands, any channel capacities, every writer whose WriteCSM "
+                  "returned has all its commands fsynced in the WAL and written to the primary files; C07_flushed_stable: it stays so "
+                  "for every later query. Tied to the code by trace validation of forced schedules on the real SyncWAL goroutine; the "
+                  "schedule that refuted the statement before the fix is a regression case.",
     "level_note": "PARTIAL in the sense of DESIGN §10: the theorems are about the LTS; Go's scheduler, channel implementation and memory "
                   "model are its assumptions, tied to the code by trace validation of forced runs, not proved. No axioms. Modelled not "
                   "verified: executor/wal.go QueueWriteCommand, FlushToWAL, FlushCommandsToWAL (as: count, drain, WAL fsync, primary "
